@@ -170,10 +170,13 @@ func (s *scanner) ReadString() (String, error) {
 		if err != nil {
 			return nil, err
 		}
-		if ignoreLF && b == 10 {
-			continue
+		if ignoreLF {
+			// only the LF directly after a CR belongs to the CR
+			ignoreLF = false
+			if b == 10 {
+				continue
+			}
 		}
-		ignoreLF = false
 		switch b {
 		case '(':
 			bracketLevel++
